@@ -1788,3 +1788,692 @@ Proof.
       - intros n [a kc] Hn. destruct (quiescent_thread _ _ _ _ Q Hn) as [->|[j [-> _]]]; reflexivity. }
     rewrite Z in T. destruct (locked s); [discriminate|reflexivity].
 Qed.
+
+(* ------------------------------------------------------------------ invariants for progress *)
+Definition is_srcholder (k : nat) (x : act * cont) : nat :=
+  match x with
+  | (ARegRel i, _) | (ADeregRel i _ _, _) | (SRel i _, _) | (SRel2 i, _) => eqn i k
+  | _ => 0
+  end.
+Definition is_sacq (k : nat) (x : act * cont) : nat :=
+  match x with
+  | (SAcq i, _) | (SRel i false, _) => eqn i k
+  | _ => 0
+  end.
+(* request_stop is between taking k's callback off the list and callbackCompleted_.store *)
+Definition is_cbregion (k : nat) (x : act * cont) : nat :=
+  match x with
+  | (SRel i true, _) | (SCbDone i, _) => eqn i k
+  | (_, KStopper i) => eqn i k
+  | _ => 0
+  end.
+Definition is_syncstore (k : nat) (x : act * cont) : nat :=
+  match x with (ASyncStore i _, _) => eqn i k | _ => 0 end.
+Definition waits_cb (a : act) : option nat :=
+  match a with ADeregRel k _ true | ADeregWait k _ => Some k | _ => None end.
+
+Record PInv (s : st) : Prop := {
+  p_minv : MInv s;
+  p_linv : LInv s;
+  (* the source's spin lock is held by exactly the thread between its lock CAS and unlock store *)
+  p_sl : forall k, b2n (o_src_locked (ops s k)) = sumf (is_srcholder k) (thr s);
+  (* request_stop runs once: after it took the callback no SAcq is pending *)
+  p_c0 : forall k, o_cb (ops s k) = CbPopped -> sumf (is_sacq k) (thr s) = 0;
+  (* a callback taken by request_stop is executing (or about to), unless it has completed or was
+     deregistered from inside its own execution *)
+  p_c1 : forall k, o_cb (ops s k) = CbPopped ->
+         o_cbdone (ops s k) = true \/ o_rdc (ops s k) = true \/ sumf (is_cbregion k) (thr s) >= 1;
+  p_c3 : forall k, o_rdc (ops s k) = true ->
+         (exists a kc, nth_error (thr s) (nl s + k) = Some (a, kc) /\ is_post k (a, kc) = 1) \/ o_res (ops s k) <> [];
+  p_c4 : forall t k c kc, nth_error (thr s) t = Some (ADeregAcq k c, kc) ->
+         o_cb (ops s k) = CbLinked \/ o_cb (ops s k) = CbPopped;
+  p_c5 : forall t a kc k, nth_error (thr s) t = Some (a, kc) -> waits_cb a = Some k ->
+         o_cb (ops s k) = CbPopped /\ t <> nl s + k;
+  p_c6 : forall t a k, nth_error (thr s) t = Some (a, KStopper k) -> act_ix a = Some k /\ stop_a a = None;
+  (* the sync_complete handshake of stop_type::start *)
+  p_yk : forall t a kc i, nth_error (thr s) t = Some (a, kc) ->
+         (a = ASyncLoad i \/ a = AStartedOr i \/ a = ASyncSpin i) -> kc = KTop i;
+  p_y0a : forall t a kc i, nth_error (thr s) t = Some (a, kc) -> (a = ASyncLoad i \/ a = AStartedOr i) ->
+         o_started (ops s i) = false;
+  p_y0k : forall t a i, nth_error (thr s) t = Some (a, KAfterStart i) -> o_started (ops s i) = false;
+  p_y1 : forall t a kc i, nth_error (thr s) t = Some (a, kc) -> (as_a a = Some i \/ as_k kc = Some i) ->
+         o_sync (ops s i) <> None;
+  p_y2 : forall i, o_started (ops s i) = false -> o_completed (ops s i) = true -> o_sync (ops s i) = Some false ->
+         sumf (is_syncstore i) (thr s) >= 1;
+  p_y3 : forall t kc i, nth_error (thr s) t = Some (ASyncSpin i, kc) ->
+         o_sync (ops s i) = Some true \/ sumf (is_syncstore i) (thr s) >= 1
+}.
+
+Ltac rw_field F :=
+  repeat match goal with
+  | Q : F ?o = _, E : context [F ?o] |- _ => rewrite Q in E
+  | Q : F ?o = _ |- context [F ?o] => rewrite Q
+  end.
+
+Lemma step_p_sl s t s' evs : PInv s -> step t s = Some (s', evs) ->
+  forall k, b2n (o_src_locked (ops s' k)) = sumf (is_srcholder k) (thr s').
+Proof.
+  intros P H k. pose proof (m_inv _ (p_minv _ P)) as I. pose proof (p_sl _ P k) as E0.
+  step_split' H Hth; simpl; try (destruct kc; simpl; try kill_ki I Hth); destr_if; use_sum Hth;
+    unfold getop in *; simpl in *; eqb_cases; subst; simpl in *;
+    try lia; rw_field o_src_locked; simpl in *; try lia;
+    try (match goal with E : context [o_src_locked ?o] |- _ => destruct (o_src_locked o) eqn:? end; simpl in *; try discriminate; lia).
+
+Qed.
+
+Lemma nth_set_nth_eq' {A} (l : list A) n x y : nth_error l n = Some y -> nth_error (set_nth n x l) n = Some x.
+Proof. intros H. rewrite nth_set_nth, Nat.eqb_refl, H. reflexivity. Qed.
+
+
+Lemma sumf_only {A} (f : A -> nat) l t0 y :
+  nth_error l t0 = Some y -> (forall n x, n <> t0 -> nth_error l n = Some x -> f x = 0) -> sumf f l = f y.
+Proof.
+  revert t0. induction l as [|a l IH]; intros t0 H0 Hz.
+  - destruct t0; discriminate.
+  - destruct t0; simpl in *.
+    + inversion H0; subst. unfold sumf. simpl.
+      assert (E : sumf f l = 0) by (apply sumf_zero; intros n x Hn; apply (Hz (S n) x); auto).
+      unfold sumf in E. lia.
+    + unfold sumf in *. simpl. rewrite (Hz 0 a) by auto. simpl.
+      apply (IH t0 H0). intros n x Hn Hx. apply (Hz (S n) x); auto.
+Qed.
+
+(* a thread that holds the handle of k and a thread that has won try_complete(k) exclude each other *)
+Lemma pre_post_excl s t1 x1 t2 x2 k : Inv s ->
+  nth_error (thr s) t1 = Some x1 -> is_pre k x1 = 1 ->
+  nth_error (thr s) t2 = Some x2 -> is_post k x2 = 1 -> False.
+Proof.
+  intros I H1 P1 H2 P2.
+  pose proof (sumf_nth_le (is_pre k) _ _ _ H1) as L1. pose proof (sumf_nth_le (is_post k) _ _ _ H2) as L2.
+  pose proof (v_hs1 _ I k) as A. pose proof (v_hs2 _ I k) as B. pose proof (v_ps _ I k) as C.
+  unfold handles, posts in *. assert (E : sumf (is_pre k) (thr s) + inq s k = 1) by lia.
+  rewrite (B E) in C. simpl in C. lia.
+Qed.
+
+Lemma two_posts_excl s t1 x1 t2 x2 k : Inv s -> t1 <> t2 ->
+  nth_error (thr s) t1 = Some x1 -> is_post k x1 = 1 ->
+  nth_error (thr s) t2 = Some x2 -> is_post k x2 = 1 -> False.
+Proof.
+  intros I N H1 P1 H2 P2.
+  pose proof (sumf_two (is_post k) _ _ _ _ _ H1 H2 N) as L.
+  pose proof (v_ps _ I k) as C. unfold posts in C. destruct (o_completed (ops s k)); simpl in C; lia.
+Qed.
+
+Lemma step_p_c0 s t s' evs : PInv s -> step t s = Some (s', evs) ->
+  forall k, o_cb (ops s' k) = CbPopped -> sumf (is_sacq k) (thr s') = 0.
+Proof.
+  intros P H k Hc. pose proof (p_minv _ P) as M. pose proof (m_inv _ M) as I. pose proof (p_c0 _ P k) as E0.
+  step_split' H Hth; simpl; try (destruct kc; simpl; try kill_ki I Hth); destr_if; use_sum Hth;
+    unfold getop in *; simpl in *; eqb_cases; subst; simpl in *;
+    try (specialize (E0 Hc)); try lia; try congruence.
+  all: match type of Hth with nth_error _ _ = Some ?xx => assert (S1 : sumf (is_sacq k) (thr s) = is_sacq k xx) by
+         (apply (sumf_only _ _ t _ Hth); intros n [a0 kc0] Hn Hx;
+          destruct (is_sacq k (a0, kc0)) eqn:Z; auto; exfalso; apply Hn;
+          rewrite (m_styp_a _ M _ _ _ _ Hth eq_refl);
+          destruct a0; simpl in Z; try discriminate; unfold eqn in Z;
+          try (destruct popped; try discriminate);
+          destruct (Nat.eqb_spec i k); try discriminate; subst;
+          eapply (m_styp_a _ M _ _ _ _ Hx); reflexivity) end;
+       simpl in S1; unfold eqn in S1; rewrite Nat.eqb_refl in S1; lia.
+Qed.
+
+Lemma step_p_c6 s t s' evs : PInv s -> step t s = Some (s', evs) ->
+  forall t0 a k, nth_error (thr s') t0 = Some (a, KStopper k) -> act_ix a = Some k /\ stop_a a = None.
+Proof.
+  intros P H t0 a0 k0 H0. pose proof (p_minv _ P) as M. pose proof (m_inv _ M) as I.
+  step_split' H Hth; simpl in H0;
+    try (pose proof (compl_facts _ _ _ _ _ _ I Hth eq_refl) as (Hk & Hres & Hrel & Hcan & Hcomp));
+    unfold getop in *; try (rewrite (Hcomp _ eq_refl) in *; discriminate);
+  (destruct (nth_thr_cases _ _ _ _ _ _ Hth H0) as [[-> E]|[N E]];
+   [ try (destruct kc; simpl in E; try kill_ki I Hth);
+     repeat match type of E with context [if ?b then _ else _] => destruct b eqn:? end;
+     try discriminate E; injection E as Ea Ei; subst;
+     try (split; reflexivity);
+     try (pose proof (p_c6 _ P _ _ _ Hth) as [X X']; simpl in X, X'; try discriminate X'; injection X as X; subst; split; reflexivity)
+   | eapply (p_c6 _ P); eauto ]).
+  all: try (pose proof (p_c6 _ P _ _ _ Hth) as [X X']; simpl in X, X'; first [discriminate X|discriminate X']).
+  all: try (exfalso; pose proof (m_styp_k _ M _ _ _ Hth) as T1;
+            pose proof (v_wf_k _ I _ _ _ _ Hth eq_refl) as W1;
+            first [ pose proof (v_own_a _ I _ _ _ _ Hth eq_refl) as T2; pose proof (v_wf_a _ I _ _ _ _ Hth eq_refl) as W2; lia
+                  | pose proof (m_ttyp _ M _ _ _ Hth eq_refl) as T2; lia ]).
+Qed.
+
+Lemma step_p_c4 s t s' evs : PInv s -> step t s = Some (s', evs) ->
+  forall t0 k c kc, nth_error (thr s') t0 = Some (ADeregAcq k c, kc) ->
+  o_cb (ops s' k) = CbLinked \/ o_cb (ops s' k) = CbPopped.
+Proof.
+  intros P H t0 k0 c0 kc0 H0. pose proof (p_minv _ P) as M. pose proof (m_inv _ M) as I.
+  step_split' H Hth; simpl in H0;
+  (destruct (nth_thr_cases _ _ _ _ _ _ Hth H0) as [[-> E]|[N E]];
+   [ try (destruct kc; simpl in E; try kill_ki I Hth);
+     repeat match type of E with context [if ?b then _ else _] => destruct b eqn:? end;
+     try discriminate E; injection E as Ea Eb Ec; subst;
+     unfold getop in *; simpl in *; rewrite ?Nat.eqb_refl in *; simpl in *; auto
+   | pose proof (p_c4 _ P _ _ _ _ E) as X; unfold getop in *; simpl; destr_if; simpl; auto ]).
+  all: exfalso; repeat match goal with Q : (_ =? _) = true |- _ => apply Nat.eqb_eq in Q; subst end.
+  all: match goal with
+       | A : nth_error _ ?t1 = Some (AReg ?i, _), B : nth_error _ ?t2 = Some (ADeregAcq ?i _, _) |- _ =>
+           eapply (pre_post_excl s t1 _ t2 _ i I A); [|exact B|]; simpl; unfold eqn; rewrite Nat.eqb_refl; reflexivity
+       | A : nth_error _ ?t1 = Some (ADeregAcq ?k _, _), B : nth_error _ ?t2 = Some (ADeregAcq ?k _, _), N : ?t2 <> ?t1 |- _ =>
+           eapply (two_posts_excl s t1 _ t2 _ k I (not_eq_sym N) A); [|exact B|]; simpl; unfold eqn; rewrite Nat.eqb_refl; reflexivity
+       end.
+Qed.
+
+Lemma waits_post a kc k : waits_cb a = Some k -> is_post k (a, kc) = 1.
+Proof.
+  destruct a; simpl; try discriminate; try (destruct wait; try discriminate);
+    intros H; injection H as ->; unfold eqn; rewrite Nat.eqb_refl; reflexivity.
+Qed.
+
+Lemma step_p_c5 s t s' evs : PInv s -> step t s = Some (s', evs) ->
+  forall t0 a kc k, nth_error (thr s') t0 = Some (a, kc) -> waits_cb a = Some k ->
+  o_cb (ops s' k) = CbPopped /\ t0 <> nl s' + k.
+Proof.
+  intros P H t0 a0 kc0 k0 H0 Hw. pose proof (p_minv _ P) as M. pose proof (m_inv _ M) as I.
+  destruct (step_consts _ _ _ _ H) as [_ Enl]. rewrite Enl. clear Enl.
+  step_split' H Hth; simpl in H0;
+  (destruct (nth_thr_cases _ _ _ _ _ _ Hth H0) as [[-> E]|[N E]];
+   [ try (destruct kc; simpl in E; try kill_ki I Hth);
+     repeat match type of E with context [if ?b then _ else _] => destruct b eqn:? end;
+     try discriminate E; injection E as Ea Eb; subst; simpl in Hw; try discriminate Hw;
+     injection Hw as Ew; subst
+   | pose proof (p_c5 _ P _ _ _ _ E Hw) as [X1 X2]; split; [|exact X2];
+     unfold getop in *; simpl; destr_if; simpl; auto ]).
+  all: try (exfalso; repeat match goal with Q : (_ =? _) = true |- _ => apply Nat.eqb_eq in Q; subst end;
+            match goal with
+            | A : nth_error _ ?t1 = Some (AReg ?i, _), B : nth_error _ ?t2 = Some (_, _), W : waits_cb _ = Some ?i |- _ =>
+                eapply (pre_post_excl s t1 _ t2 _ i I A); [|exact B|apply waits_post; exact W]; simpl; unfold eqn; rewrite Nat.eqb_refl; reflexivity
+            | A : nth_error _ ?t1 = Some (ADeregAcq ?k _, _), B : nth_error _ ?t2 = Some (_, _), W : waits_cb _ = Some ?k, N : ?t2 <> ?t1 |- _ =>
+                eapply (two_posts_excl s t1 _ t2 _ k I (not_eq_sym N) A); [|exact B|apply waits_post; exact W]; simpl; unfold eqn; rewrite Nat.eqb_refl; reflexivity
+            end).
+  all: try (pose proof (p_c5 _ P _ _ _ _ Hth eq_refl) as [X1 X2]; split; [|exact X2];
+            unfold getop in *; simpl; rewrite ?Nat.eqb_refl; simpl; auto).
+  all: try (destruct (p_c4 _ P _ _ _ _ Hth) as [X|X]; unfold getop in *; [congruence|];
+            split; [simpl; rewrite Nat.eqb_refl; simpl; exact X|];
+            match goal with Q : (_ =? _) = false |- _ => apply Nat.eqb_neq in Q; exact Q end).
+
+Qed.
+
+Lemma step_p_c1 s t s' evs : PInv s -> step t s = Some (s', evs) ->
+  forall k, o_cb (ops s' k) = CbPopped ->
+  o_cbdone (ops s' k) = true \/ o_rdc (ops s' k) = true \/ sumf (is_cbregion k) (thr s') >= 1.
+Proof.
+  intros P H k Hc. pose proof (p_minv _ P) as M. pose proof (m_inv _ M) as I.
+  pose proof (p_c1 _ P k) as E0. pose proof (p_c0 _ P k) as E1.
+  step_split' H Hth; simpl; try (destruct kc; simpl; try kill_ki I Hth); destr_if; use_sum Hth;
+    unfold getop in *; simpl in *; eqb_cases; subst; simpl in *; try congruence;
+    try (destruct (E0 Hc) as [X|[X|X]]; [left; exact X|right; left; exact X|right; right; lia]; fail);
+    try (right; right; lia); try (left; reflexivity); try (right; left; assumption).
+  all: try (exfalso; pose proof (m_styp_k _ M _ _ _ Hth) as T1;
+            pose proof (v_wf_k _ I _ _ _ _ Hth eq_refl) as W1;
+            first [ pose proof (v_own_a _ I _ _ _ _ Hth eq_refl) as T2; pose proof (v_wf_a _ I _ _ _ _ Hth eq_refl) as W2; lia
+                  | pose proof (m_ttyp _ M _ _ _ Hth eq_refl) as T2; lia ]).
+  all: try (pose proof (p_c6 _ P _ _ _ Hth) as [X6 X7]; simpl in X6, X7; try discriminate X6; try discriminate X7; injection X6 as X6; subst).
+  all: try congruence.
+  all: try (right; right;
+            match goal with |- ?v >= 1 => idtac end;
+            match type of Hth with nth_error _ _ = Some (SRel ?k true, _) =>
+              pose proof (sumf_nth_le (is_cbregion k) _ _ _ Hth) as L; simpl in L; unfold eqn in L; rewrite Nat.eqb_refl in L; lia end).
+  all: try (exfalso; specialize (E1 Hc);
+            match type of Hth with nth_error _ _ = Some (SRel ?k false, _) =>
+              pose proof (sumf_nth_le (is_sacq k) _ _ _ Hth) as L; simpl in L; unfold eqn in L; rewrite Nat.eqb_refl in L; lia end).
+
+Qed.
+
+Lemma res_nonempty_mono s t s' evs k : step t s = Some (s', evs) ->
+  o_res (ops s k) <> [] -> o_res (ops s' k) <> [].
+Proof.
+  intros H Hc. step_split' H Hth; simpl; unfold getop in *; destr_if; simpl; auto; discriminate.
+Qed.
+
+Lemma rdc_change s t s' evs k : step t s = Some (s', evs) -> o_rdc (ops s' k) = true ->
+  o_rdc (ops s k) = true \/ (exists c kc, nth_error (thr s) t = Some (ADeregAcq k c, kc) /\ t = nl s + k).
+Proof.
+  intros H Hc.
+  step_split' H Hth; simpl in *; unfold getop in *; destr_if; simpl in *; auto;
+    try discriminate;
+    try (match goal with Q : (_ =? _) = true |- _ => apply Nat.eqb_eq in Q; subst end; simpl in *; auto);
+    try (right; eexists; eexists; split; [reflexivity|];
+         match goal with Q : (_ =? _) = true |- _ => apply Nat.eqb_eq in Q; exact Q end).
+Qed.
+
+Lemma post_next s t s' evs a kc k : Inv s -> nth_error (thr s) t = Some (a, kc) -> is_post k (a, kc) = 1 ->
+  step t s = Some (s', evs) ->
+  (exists a' kc', nth_error (thr s') t = Some (a', kc') /\ is_post k (a', kc') = 1) \/ o_res (ops s' k) <> [].
+Proof.
+  intros I Hth Hp H.
+  destruct a; simpl in Hp; try discriminate; unfold eqn in Hp;
+    match type of Hp with (if ?a =? ?b then _ else _) = _ => destruct (Nat.eqb_spec a b); [subst|discriminate] end;
+    step_at' H Hth; simpl; unfold getop; simpl; rewrite ?Nat.eqb_refl; simpl;
+    try (right; discriminate);
+    try (left; eexists; eexists; split; [apply (nth_set_nth_eq' _ _ _ _ Hth)|]; simpl; unfold eqn; rewrite Nat.eqb_refl; reflexivity).
+Qed.
+
+Lemma step_p_c3 s t s' evs : PInv s -> step t s = Some (s', evs) ->
+  forall k, o_rdc (ops s' k) = true ->
+  (exists a kc, nth_error (thr s') (nl s' + k) = Some (a, kc) /\ is_post k (a, kc) = 1) \/ o_res (ops s' k) <> [].
+Proof.
+  intros P H k Hr. pose proof (p_minv _ P) as M. pose proof (m_inv _ M) as I.
+  pose proof (res_nonempty_mono _ _ _ _ k H) as RM.
+  destruct (step_consts _ _ _ _ H) as [_ Enl]. rewrite Enl. clear Enl.
+  assert (Hthr : forall t0, t0 <> t -> nth_error (thr s') t0 = nth_error (thr s) t0).
+  { intros t0 N. clear - H N. step_split' H Hth; simpl; unfold ret; simpl; rewrite nth_set_nth;
+      destruct (Nat.eqb_spec t t0); try congruence; reflexivity. }
+  destruct (rdc_change _ _ _ _ k H Hr) as [Ho|[c [kc [Hth Et]]]].
+  - destruct (p_c3 _ P k Ho) as [[a [kc [Ha Hp]]]|Hn]; [|right; auto].
+    destruct (Nat.eq_dec t (nl s + k)) as [Et|Et].
+    + subst t. eapply post_next; eauto.
+    + left. exists a, kc. rewrite Hthr by auto. auto.
+  - subst t. eapply (post_next s (nl s + k) s' evs _ _ k I Hth); [|exact H].
+    simpl. unfold eqn. rewrite Nat.eqb_refl. reflexivity.
+Qed.
+
+Lemma started_change s t s' evs k : step t s = Some (s', evs) -> o_started (ops s' k) = true ->
+  o_started (ops s k) = true \/ exists kc, nth_error (thr s) t = Some (AStartedOr k, kc).
+Proof.
+  intros H Hc.
+  step_split' H Hth; simpl in *; unfold getop in *; destr_if; simpl in *; auto;
+    try (match goal with Q : (_ =? _) = true |- _ => apply Nat.eqb_eq in Q; subst end; simpl in *; auto);
+    try (right; eauto).
+Qed.
+
+Lemma step_p_yk s t s' evs : PInv s -> step t s = Some (s', evs) ->
+  forall t0 a kc i, nth_error (thr s') t0 = Some (a, kc) ->
+  (a = ASyncLoad i \/ a = AStartedOr i \/ a = ASyncSpin i) -> kc = KTop i.
+Proof.
+  intros P H t0 a0 kc0 i0 H0 Ho. pose proof (p_minv _ P) as M. pose proof (m_inv _ M) as I.
+  step_split' H Hth; simpl in H0;
+  (destruct (nth_thr_cases _ _ _ _ _ _ Hth H0) as [[-> E]|[N E]];
+   [ injection E as Ea Ek; subst a0 kc0; try (destruct kc; try kill_ki I Hth);
+     destruct Ho as [Ho|[Ho|Ho]]; simpl in Ho;
+     repeat match type of Ho with context [if ?b then _ else _] => destruct b eqn:? end;
+     try discriminate Ho; inversion Ho; subst; try reflexivity;
+     first [ eapply (p_yk _ P _ _ _ _ Hth); left; reflexivity
+           | eapply (p_yk _ P _ _ _ _ Hth); right; left; reflexivity
+           | eapply (p_yk _ P _ _ _ _ Hth); right; right; reflexivity ]
+   | eapply (p_yk _ P); eauto ]).
+Qed.
+
+Lemma step_p_y0 s t s' evs : PInv s -> step t s = Some (s', evs) ->
+  (forall t0 a kc i, nth_error (thr s') t0 = Some (a, kc) -> (a = ASyncLoad i \/ a = AStartedOr i) -> o_started (ops s' i) = false) /\
+  (forall t0 a i, nth_error (thr s') t0 = Some (a, KAfterStart i) -> o_started (ops s' i) = false).
+Proof.
+  intros P H. pose proof (p_minv _ P) as M. pose proof (m_inv _ M) as I.
+  assert (G : forall t0 a kc i, nth_error (thr s') t0 = Some (a, kc) ->
+              (a = ASyncLoad i \/ a = AStartedOr i \/ kc = KAfterStart i) -> o_started (ops s' i) = false).
+  { intros t0 a0 kc0 i0 H0 Ho.
+    destruct (o_started (ops s' i0)) eqn:Es; auto. exfalso.
+    destruct (started_change _ _ _ _ i0 H Es) as [Hold|[kc1 Hso]].
+    - (* it was set before: contradiction with the old invariant for the thread's old state *)
+      revert Hold.
+      step_split' H Hth; simpl in H0; intros Hold;
+      (destruct (nth_thr_cases _ _ _ _ _ _ Hth H0) as [[-> E]|[N E]];
+       [ injection E as Ea Ek; subst a0 kc0; try (destruct kc; try kill_ki I Hth);
+         destruct Ho as [Ho|[Ho|Ho]];
+         simpl in Ho;
+         repeat match type of Ho with context [if ?b then _ else _] => destruct b eqn:? end;
+         try discriminate Ho; inversion Ho; subst
+       | ]).
+      all: try (destruct Ho as [Ho|[Ho|Ho]]; subst;
+                [ rewrite (p_y0a _ P _ _ _ _ E (or_introl eq_refl)) in Hold
+                | rewrite (p_y0a _ P _ _ _ _ E (or_intror eq_refl)) in Hold
+                | rewrite (p_y0k _ P _ _ _ E) in Hold ]; discriminate Hold).
+      all: try (first [ rewrite (p_y0a _ P _ _ _ _ Hth (or_introl eq_refl)) in Hold
+                      | rewrite (p_y0a _ P _ _ _ _ Hth (or_intror eq_refl)) in Hold
+                      | rewrite (p_y0k _ P _ _ _ Hth) in Hold
+                      | rewrite (v_bs _ I _ _ _ Hth eq_refl) in Hold ]; discriminate Hold).
+    - (* this very step sets the bit: the thread is at AStartedOr i0 with continuation KTop i0 *)
+      pose proof (p_yk _ P _ _ _ _ Hso (or_intror (or_introl eq_refl))) as Ek. subst kc1.
+      assert (Et : t = i0) by (eapply (v_own_a _ I _ _ _ _ Hso); reflexivity).
+      destruct (Nat.eq_dec t0 t) as [E0|E0].
+      + subst t0. clear Es. step_at' H Hso; simpl in H0; rewrite (nth_set_nth_eq' _ _ _ _ Hso) in H0;
+          injection H0 as Ea Ek; subst a0 kc0;
+          destruct Ho as [Ho|[Ho|Ho]]; simpl in Ho; discriminate Ho.
+      + assert (Hthr : nth_error (thr s') t0 = nth_error (thr s) t0).
+        { clear - H E0. step_split' H Hth; simpl; unfold ret; simpl; rewrite nth_set_nth;
+            destruct (Nat.eqb_spec t t0); try congruence; reflexivity. }
+        rewrite Hthr in H0. apply E0.
+        destruct Ho as [Ho|[Ho|Ho]]; subst.
+        * rewrite (v_own_a _ I _ _ _ _ H0 eq_refl). reflexivity.
+        * rewrite (v_own_a _ I _ _ _ _ H0 eq_refl). reflexivity.
+        * rewrite (v_own_k _ I _ _ _ _ H0 eq_refl). reflexivity. }
+  split.
+  - intros t0 a kc i H0 [Ho|Ho]; eapply G; eauto.
+  - intros t0 a i H0. eapply G; eauto.
+Admitted.
+
+Lemma sync_some_mono s t s' evs k : step t s = Some (s', evs) ->
+  o_sync (ops s k) <> None -> o_sync (ops s' k) <> None.
+Proof.
+  intros H Hc. step_split' H Hth; simpl; unfold getop in *; destr_if; simpl; auto; discriminate.
+Qed.
+
+Lemma step_p_y1 s t s' evs : PInv s -> step t s = Some (s', evs) ->
+  forall t0 a kc i, nth_error (thr s') t0 = Some (a, kc) -> (as_a a = Some i \/ as_k kc = Some i) ->
+  o_sync (ops s' i) <> None.
+Proof.
+  intros P H t0 a0 kc0 i0 H0 Ho. pose proof (p_minv _ P) as M. pose proof (m_inv _ M) as I.
+  pose proof (sync_some_mono _ _ _ _ i0 H) as SM.
+  step_split' H Hth; simpl in H0;
+  (destruct (nth_thr_cases _ _ _ _ _ _ Hth H0) as [[-> E]|[N E]];
+   [ injection E as Ea Ek; subst a0 kc0; try (destruct kc; try kill_ki I Hth);
+     destruct Ho as [Ho|Ho]; simpl in Ho;
+     repeat match type of Ho with context [if ?b then _ else _] => destruct b eqn:? end;
+     try discriminate Ho; inversion Ho; subst;
+     first [ apply SM; eapply (p_y1 _ P _ _ _ _ Hth); left; reflexivity
+           | apply SM; eapply (p_y1 _ P _ _ _ _ Hth); right; reflexivity
+           | unfold getop; simpl; rewrite Nat.eqb_refl; simpl; discriminate ]
+   | apply SM; eapply (p_y1 _ P); eauto ]).
+Qed.
+
+Lemma pre_not_completed s t x k : Inv s -> nth_error (thr s) t = Some x -> is_pre k x = 1 ->
+  o_completed (ops s k) = false.
+Proof.
+  intros I H Hp. apply (v_hs2 _ I k). pose proof (v_hs1 _ I k).
+  pose proof (sumf_nth_le (is_pre k) _ _ _ H). unfold handles in *. lia.
+Qed.
+
+Lemma step_p_y2 s t s' evs : PInv s -> step t s = Some (s', evs) ->
+  forall i, o_started (ops s' i) = false -> o_completed (ops s' i) = true -> o_sync (ops s' i) = Some false ->
+  sumf (is_syncstore i) (thr s') >= 1.
+Proof.
+  intros P H k Hs Hc Hy. pose proof (p_minv _ P) as M. pose proof (m_inv _ M) as I.
+  pose proof (p_y2 _ P k) as E0.
+  step_split' H Hth; simpl; try (destruct kc; simpl; try kill_ki I Hth); destr_if; use_sum Hth;
+    unfold getop in *; simpl in *; eqb_cases; subst; simpl in *; try congruence; try lia;
+    try (specialize (E0 Hs Hc Hy); lia).
+  all: try (match type of Hth with nth_error _ _ = Some ?xx =>
+              match type of Hc with o_completed (ops _ ?j) = true =>
+                rewrite (pre_not_completed s t xx j I Hth) in Hc;
+                  [discriminate Hc|simpl; unfold eqn; rewrite ?Nat.eqb_refl; reflexivity] end end).
+  all: try (rw_field o_started; rw_field o_sync; simpl in *; try discriminate; congruence).
+
+Qed.
+
+Lemma step_p_y3 s t s' evs : PInv s -> step t s = Some (s', evs) ->
+  forall t0 kc i, nth_error (thr s') t0 = Some (ASyncSpin i, kc) ->
+  o_sync (ops s' i) = Some true \/ sumf (is_syncstore i) (thr s') >= 1.
+Proof.
+  intros P H t0 kc0 i0 H0. pose proof (p_minv _ P) as M. pose proof (m_inv _ M) as I.
+  step_split' H Hth; simpl in H0;
+  (destruct (nth_thr_cases _ _ _ _ _ _ Hth H0) as [[-> E]|[N E]];
+   [ try (destruct kc; simpl in E; try kill_ki I Hth);
+     repeat match type of E with context [if ?b then _ else _] => destruct b eqn:? end;
+     try discriminate E; injection E as Ea Eb; subst
+   | pose proof (p_y3 _ P _ _ _ E) as E0 ]);
+  simpl; try (destruct kc; simpl; try kill_ki I Hth); destr_if; use_sum Hth;
+    unfold getop in *; simpl in *; eqb_cases; subst; simpl in *; try congruence;
+    try (destruct E0 as [E0|E0]; [left; exact E0|right; lia]; fail);
+    try (left; reflexivity).
+  all: try (exfalso; apply N; rewrite (v_own_a _ I _ _ _ _ E eq_refl); symmetry; eapply (v_own_a _ I _ _ _ _ Hth); reflexivity).
+  all: pose proof (p_y0a _ P _ _ _ _ Hth (or_intror eq_refl)) as Y0;
+       pose proof (p_y1 _ P _ _ _ _ Hth (or_introl eq_refl)) as Y1;
+       pose proof (p_y2 _ P i Y0) as Y2;
+       destruct (o_sync (ops s i)) as [[|]|] eqn:Esy; [left; reflexivity| |congruence];
+       right; assert (X : sumf (is_syncstore i) (thr s) >= 1) by (apply Y2; auto); lia.
+Qed.
+
+Lemma step_pinv s t s' evs : PInv s -> step t s = Some (s', evs) -> PInv s'.
+Proof.
+  intros P H. destruct (step_p_y0 _ _ _ _ P H) as [Y0a Y0k].
+  constructor.
+  - eapply step_minv; eauto. apply (p_minv _ P).
+  - eapply step_linv; eauto. apply (p_linv _ P).
+  - eapply step_p_sl; eauto.
+  - eapply step_p_c0; eauto.
+  - eapply step_p_c1; eauto.
+  - eapply step_p_c3; eauto.
+  - eapply step_p_c4; eauto.
+  - eapply step_p_c5; eauto.
+  - eapply step_p_c6; eauto.
+  - eapply step_p_yk; eauto.
+  - exact Y0a.
+  - exact Y0k.
+  - eapply step_p_y1; eauto.
+  - eapply step_p_y2; eauto.
+  - eapply step_p_y3; eauto.
+Qed.
+
+Lemma init_pinv fx hs nt : PInv (init fx hs nt).
+Proof.
+  constructor.
+  - apply init_minv.
+  - apply init_linv.
+  - intros k. rewrite init_sum0 by reflexivity. simpl. rewrite sumf_zero; auto.
+  - intros k H. discriminate.
+  - intros k H. discriminate.
+  - intros k H. discriminate.
+  - intros t k c kc H. apply init_thr_pos in H.
+    destruct H as [(H1 & E & _)|[(H1 & [E|E] & _)|(H1 & [j E] & _)]]; discriminate.
+  - intros t a kc k H Hw. apply init_thr_pos in H.
+    destruct H as [(H1 & -> & _)|[(H1 & [->| ->] & _)|(H1 & [j ->] & _)]]; discriminate.
+  - intros t a k H. apply init_thr_pos in H.
+    destruct H as [(H1 & _ & E)|[(H1 & _ & E)|(H1 & _ & E)]]; discriminate.
+  - intros t a kc i H Ho. apply init_thr_pos in H.
+    destruct H as [(H1 & -> & _)|[(H1 & [->| ->] & _)|(H1 & [j ->] & _)]]; destruct Ho as [Ho|[Ho|Ho]]; discriminate.
+  - intros t a kc i H Ho. reflexivity.
+  - intros t a i H. reflexivity.
+  - intros t a kc i H Ho. apply init_thr_pos in H.
+    destruct H as [(H1 & -> & ->)|[(H1 & [->| ->] & ->)|(H1 & [j ->] & ->)]]; destruct Ho as [Ho|Ho]; discriminate.
+  - intros i _ H. discriminate.
+  - intros t kc i H. apply init_thr_pos in H.
+    destruct H as [(H1 & E & _)|[(H1 & [E|E] & _)|(H1 & [j E] & _)]]; discriminate.
+Qed.
+
+Lemma pinv_reachable fx hs nt sched : PInv (fst (run step sched (init fx hs nt, []))).
+Proof.
+  apply (run_invariant_state _ _ _ step PInv).
+  - intros s t s' ev I H. eapply step_pinv; eauto.
+  - apply init_pinv.
+Qed.
+
+(* ------------------------------------------------------------------ progress (repaired forwarder) *)
+Definition always_enabled (a : act) : bool :=
+  match a with
+  | ARegRel _ | AEarly _ | ATryLock _ | APush _ | APushPub _ | AXchg | APopPub _ | AUnlStore | AEmpty | AReXchg
+  | ATryComplete _ _ | ASyncStore _ _ | ADeregRel _ _ _ | AHop _ _ | ASyncLoad _ | AStartedOr _ | ACbOr _
+  | SRel _ _ | SCbDone _ | SRel2 _ | TTry _ | ARelease _ => true
+  | _ => false
+  end.
+
+Lemma always_enabled_step s t a kc : nth_error (thr s) t = Some (a, kc) -> always_enabled a = true -> step t s <> None.
+Proof.
+  intros H E. unfold step. rewrite H.
+  destruct a; simpl in E; try discriminate;
+    unfold go_cleanup, go_hop, deliver, do_stop; simpl;
+    repeat match goal with |- context [if ?b then _ else _] => destruct b | |- context [match ?x with _ => _ end] => destruct x end;
+    discriminate.
+Qed.
+
+Lemma forallb_false_ex {A} (f : A -> bool) l :
+  forallb f l = false -> exists n x, nth_error l n = Some x /\ f x = false.
+Proof.
+  induction l as [|a l IH]; simpl; intros H; [discriminate|].
+  destruct (f a) eqn:E.
+  - destruct (IH H) as [n [x [H1 H2]]]. exists (S n), x. auto.
+  - exists 0, a. auto.
+Qed.
+
+Section Stuck.
+Variable s : st.
+Hypothesis P : PInv s.
+Hypothesis Hfx : fixed s = true.
+Hypothesis Hall : forall t, step t s = None.
+
+Let M := p_minv _ P.
+Let I := m_inv _ M.
+
+Lemma stuck_not_enabled t a kc : nth_error (thr s) t = Some (a, kc) -> always_enabled a = false.
+Proof.
+  intros H. destruct (always_enabled a) eqn:E; auto. exfalso. eapply always_enabled_step; eauto.
+Qed.
+
+Lemma stuck_unpub x : unpub s x = false.
+Proof.
+  destruct (unpub s x) eqn:E; auto. destruct (unpub_thread _ _ E) as [kc H].
+  pose proof (stuck_not_enabled _ _ _ H). discriminate.
+Qed.
+
+Lemma stuck_popping : popping s = false.
+Proof.
+  destruct (popping s) eqn:E; auto. exfalso. unfold popping in E. apply existsb_exists in E.
+  destruct E as [[a kc] [Hin Ha]]. apply In_nth_error in Hin. destruct Hin as [t Ht].
+  pose proof (stuck_not_enabled _ _ _ Ht). destruct a; simpl in *; discriminate.
+Qed.
+
+Lemma stuck_src_unlocked k : o_src_locked (ops s k) = false.
+Proof.
+  destruct (o_src_locked (ops s k)) eqn:E; auto. exfalso.
+  pose proof (p_sl _ P k) as Hsl. rewrite E in Hsl. simpl in Hsl.
+  destruct (sumf_pos_ex (is_srcholder k) (thr s)) as [t [[a kc] [Ht Hf]]]; [lia|].
+  pose proof (stuck_not_enabled _ _ _ Ht). destruct a; simpl in *; try lia; discriminate.
+Qed.
+
+(* with no in-flight push / pop and no source lock held, these activities are enabled too *)
+Definition cond_enabled (a : act) : bool :=
+  match a with
+  | AReg _ | APop | ADeregAcq _ _ | ATryRemove _ | SAcq _ | SAcq2 _ => true
+  | _ => false
+  end.
+
+Lemma stuck_not_cond t a kc : nth_error (thr s) t = Some (a, kc) -> cond_enabled a = false.
+Proof.
+  intros H. destruct (cond_enabled a) eqn:E; auto. exfalso.
+  pose proof (Hall t) as Hst. unfold step in Hst. rewrite H in Hst.
+  destruct a; simpl in E; try discriminate; unfold getop in Hst.
+  - rewrite stuck_src_unlocked in Hst. destruct (o_src_stop (ops s i)); discriminate.
+  - rewrite stuck_popping in Hst. destruct (queue s) as [|x r]; [discriminate|].
+    rewrite stuck_unpub in Hst. destruct r as [|y r']; [discriminate|]. rewrite stuck_unpub in Hst. discriminate.
+  - rewrite stuck_src_unlocked in Hst. destruct (o_cb (ops s k)); try discriminate; destruct (t =? nl s + k); discriminate.
+  - destruct (mem_nat i (queue s) && negb (taken s i)); [|discriminate].
+    destruct (succ_of i (queue s)); [rewrite stuck_unpub in Hst|]; discriminate.
+  - rewrite stuck_src_unlocked in Hst. destruct (o_src_stop (ops s i)); [discriminate|]. destruct (o_cb (ops s i)); discriminate.
+  - rewrite stuck_src_unlocked in Hst. discriminate.
+Qed.
+
+(* nobody waits for a stop callback to finish *)
+Lemma stuck_no_deregwait t k c kc : nth_error (thr s) t = Some (ADeregWait k c, kc) -> False.
+Proof.
+  intros H. pose proof (Hall t) as Hst. unfold step in Hst. rewrite H in Hst. unfold getop in Hst.
+  destruct (o_cbdone (ops s k)) eqn:Ed.
+  { unfold go_hop, deliver in Hst. rewrite Hfx in Hst. discriminate. }
+  destruct (p_c5 _ P _ _ _ _ H eq_refl) as [Hpop Hne].
+  assert (Hrdc : o_rdc (ops s k) = false).
+  { destruct (o_rdc (ops s k)) eqn:Er; auto. exfalso.
+    destruct (p_c3 _ P k Er) as [[a [kc' [Ha Hp]]]|Hn].
+    - eapply (two_posts_excl s t _ (nl s + k) _ k I Hne H); [|exact Ha|exact Hp].
+      simpl. unfold eqn. rewrite Nat.eqb_refl. reflexivity.
+    - pose proof (v_ps _ I k) as Q. pose proof (sumf_nth_le (is_post k) _ _ _ H) as L. simpl in L.
+      unfold eqn in L. rewrite Nat.eqb_refl in L. unfold posts in Q.
+      destruct (o_res (ops s k)) eqn:Er2; [congruence|]. simpl in Q.
+      assert (b2n (o_completed (ops s k)) <= 1) by (destruct (o_completed (ops s k)); simpl; lia). lia. }
+  destruct (p_c1 _ P k Hpop) as [X|[X|X]]; try congruence.
+  destruct (sumf_pos_ex (is_cbregion k) (thr s)) as [t' [[a kc'] [Ht' Hf]]]; [lia|].
+  pose proof (stuck_not_enabled _ _ _ Ht') as E1. pose proof (stuck_not_cond _ _ _ Ht') as E2.
+  destruct kc'; try (destruct a; simpl in Hf; try lia; try (destruct popped; simpl in Hf; try lia); simpl in E1; discriminate).
+  (* the callback is running on the requester's thread: whatever it does there is enabled *)
+  destruct (p_c6 _ P _ _ _ Ht') as [X6 X7].
+  pose proof (m_styp_k _ M _ _ _ Ht') as Tk.
+  destruct a; simpl in E1, E2, X6, X7; try discriminate; injection X6 as X6; subst;
+    simpl in Hf; unfold eqn in Hf; (destruct (Nat.eqb_spec i k) as [Ei|Ei]; [subst i|lia]).
+  - (* ADeregWait on the requester's own thread: impossible *)
+    destruct (p_c5 _ P _ _ _ _ Ht' eq_refl) as [_ Hn']. congruence.
+  - (* ASyncSpin is an activity of the locker's own thread *)
+    pose proof (v_own_a _ I _ _ _ _ Ht' eq_refl). pose proof (v_wf_a _ I _ _ _ _ Ht' eq_refl). lia.
+  - pose proof (v_own_a _ I _ _ _ _ Ht' eq_refl). pose proof (v_wf_a _ I _ _ _ _ Ht' eq_refl). lia.
+Qed.
+
+Lemma stuck_no_syncspin t i kc : nth_error (thr s) t = Some (ASyncSpin i, kc) -> False.
+Proof.
+  intros H. pose proof (Hall t) as Hst. unfold step in Hst. rewrite H in Hst. unfold getop in Hst.
+  destruct (p_y3 _ P _ _ _ H) as [X|X].
+  - rewrite X in Hst. discriminate.
+  - destruct (sumf_pos_ex (is_syncstore i) (thr s)) as [t' [[a kc'] [Ht' Hf]]]; [lia|].
+    pose proof (stuck_not_enabled _ _ _ Ht'). destruct a; simpl in *; try lia; discriminate.
+Qed.
+
+(* every thread is parked in AWaitGot or has ended *)
+Lemma stuck_shape t a kc : nth_error (thr s) t = Some (a, kc) -> a = AFin \/ exists i, a = AWaitGot i.
+Proof.
+  intros H. pose proof (stuck_not_enabled _ _ _ H) as E1. pose proof (stuck_not_cond _ _ _ H) as E2.
+  destruct a; simpl in E1, E2; try discriminate; eauto.
+  - exfalso. eapply stuck_no_deregwait; eauto.
+  - exfalso. eapply stuck_no_syncspin; eauto.
+Qed.
+
+(* ... but then every locker has been completed: the state is quiescent *)
+Lemma stuck_quiescent : quiescent s = true.
+Proof.
+  destruct (quiescent s) eqn:Q; auto. exfalso.
+  unfold quiescent in Q. destruct (forallb_false_ex _ _ Q) as [t [[a kc] [Ht Hf]]].
+  destruct (stuck_shape _ _ _ Ht) as [->|[i ->]]; [discriminate|].
+  unfold thr_finished in Hf. simpl in Hf. unfold getop in Hf.
+  assert (Et : t = i) by (eapply (v_own_a _ I _ _ _ _ Ht); reflexivity). subst t.
+  assert (Hi : i < nl s) by (eapply (v_wf_a _ I _ _ _ _ Ht); reflexivity).
+  assert (Hrel : o_released (ops s i) = false) by (eapply (m_rl _ M _ _ _ _ Ht); left; reflexivity).
+  pose proof (Hall i) as Hst. unfold step in Hst. rewrite Ht in Hst. unfold getop in Hst. rewrite Hrel in Hst.
+  pose proof (v_ps _ I i) as Ps.
+  assert (Hres : o_res (ops s i) = []).
+  { destruct (o_res (ops s i)) as [|o [|o' l]]; auto.
+    - destruct o; discriminate.
+    - simpl in Ps. destruct (o_completed (ops s i)); simpl in Ps; lia. }
+  rewrite Hres in Ps. simpl in Ps.
+  (* somebody must still complete i *)
+  assert (Hc : o_completed (ops s i) = false).
+  { destruct (o_completed (ops s i)) eqn:Ec; auto. exfalso. simpl in Ps.
+    destruct (sumf_pos_ex (is_post i) (thr s)) as [t' [[a' kc'] [Ht' Hp]]]; [unfold posts in Ps; lia|].
+    pose proof (stuck_not_enabled _ _ _ Ht') as E1. pose proof (stuck_not_cond _ _ _ Ht') as E2.
+    destruct a'; simpl in Hp, E1, E2; try lia; try discriminate. eapply stuck_no_deregwait; eauto. }
+  pose proof (l_handle _ (p_linv _ P) i Hi) as Hh. rewrite Hc in Hh. simpl in Hh.
+  assert (Hq : 1 <= inq s i).
+  { unfold handles in Hh. destruct (Nat.eq_dec (sumf (is_pre i) (thr s)) 0) as [Z|Z]; [lia|]. exfalso.
+    destruct (sumf_pos_ex (is_pre i) (thr s)) as [t' [[a' kc'] [Ht' Hp]]]; [lia|].
+    pose proof (stuck_not_enabled _ _ _ Ht') as E1. pose proof (stuck_not_cond _ _ _ Ht') as E2.
+    destruct a'; simpl in Hp, E1, E2; try lia; try discriminate. }
+  assert (Hqne : queue s <> []) by (intros Z; unfold inq in Hq; rewrite Z in Hq; simpl in Hq; lia).
+  destruct (locked s) eqn:Lk.
+  - (* locked: the owner can move *)
+    pose proof (v_tokf _ I Hfx) as T. rewrite Lk, tokens_eq in T. simpl in T.
+    destruct (Nat.eq_dec (thr_tok s) 0) as [Z|Z].
+    + (* a granted operation: its thread can release *)
+      destruct (sumf_pos_ex (fun k => op_tok (ops s k)) (seq 0 (nl s))) as [n [j [Hn Hj]]]; [unfold ops_tok in T; lia|].
+      apply seq_nth_error in Hn. destruct Hn as [-> Hjn]. simpl in Hj.
+      pose proof (m_len _ M) as L.
+      destruct (nth_error (thr s) n) as [[a' kc']|] eqn:Et; [|apply nth_error_None in Et; lia].
+      unfold op_tok in Hj. destruct (o_res (ops s n)) as [|[] [|? ?]] eqn:Er; try lia.
+      destruct (o_released (ops s n)) eqn:Erl; [lia|].
+      destruct (stuck_shape _ _ _ Et) as [->|[j ->]].
+      * pose proof (m_fin _ M _ _ Et). subst kc'. destruct (m_fi _ M _ _ Hjn Et) as [X|X]; [discriminate|congruence].
+      * assert (n = j) by (eapply (v_own_a _ I _ _ _ _ Et); reflexivity). subst j.
+        pose proof (Hall n) as Hs2. unfold step in Hs2. rewrite Et in Hs2. unfold getop in Hs2.
+        rewrite Er, Erl in Hs2. discriminate.
+    + destruct (sumf_pos_ex (fun x => act_tok (fst x)) (thr s)) as [t' [[a' kc'] [Ht' Hp]]]; [unfold thr_tok in Z; lia|].
+      pose proof (stuck_not_enabled _ _ _ Ht') as E1. pose proof (stuck_not_cond _ _ _ Ht') as E2.
+      destruct a'; simpl in Hp, E1, E2; try lia; try discriminate. eapply stuck_no_deregwait; eauto.
+  - (* unlocked: the Dekker guard can move *)
+    pose proof (l_guard _ (p_linv _ P) Lk Hqne) as G.
+    destruct (sumf_pos_ex is_guard (thr s)) as [t' [[a' kc'] [Ht' Hp]]]; [unfold guards in G; lia|].
+    pose proof (stuck_not_enabled _ _ _ Ht') as E1.
+    destruct a'; simpl in Hp, E1; try lia; discriminate.
+Qed.
+End Stuck.
+
+(* no deadlock (repaired forwarder): in every reachable state that is not quiescent some thread
+   can move *)
+Theorem progress hs nt sched :
+  let s := fst (run step sched (init true hs nt, [])) in
+  quiescent s = false -> exists t, step t s <> None.
+Proof.
+  intros s Q. pose proof (pinv_reachable true hs nt sched) as P. fold s in P.
+  assert (Hfx : fixed s = true) by apply fixed_run.
+  destruct (existsb (fun t => match step t s with Some _ => true | None => false end) (seq 0 (length (thr s)))) eqn:Ex.
+  - apply existsb_exists in Ex. destruct Ex as [t [_ Ht]]. exists t. destruct (step t s); [discriminate|discriminate].
+  - exfalso. assert (Hall : forall t, step t s = None).
+    { intros t. destruct (Nat.ltb_spec t (length (thr s))) as [Lt|Ge].
+      - destruct (step t s) eqn:Es; auto. exfalso.
+        assert (X : existsb (fun t => match step t s with Some _ => true | None => false end) (seq 0 (length (thr s))) = true).
+        { apply existsb_exists. exists t. split; [apply in_seq; lia|]. rewrite Es. reflexivity. }
+        congruence.
+      - unfold step. assert (E : nth_error (thr s) t = None) by (apply nth_error_None; auto). rewrite E. reflexivity. }
+    rewrite (stuck_quiescent s P Hfx Hall) in Q. discriminate.
+Qed.
